@@ -76,6 +76,7 @@ type inst struct {
 	hdrState map[*loopInfo]*hdrSnap
 	letVals  map[string]Val
 	loopFrames map[*loopInfo]map[string]*region
+	atNode *vnode
 	loopAllocPre map[*loopInfo]string // allocation counter just before each cut loop
 	split    bool // duplicate join blocks per path instead of merging states
 	at       *ssa.BasicBlock // evaluation point for name resolution
